@@ -950,4 +950,11 @@ func main() {
 	close(order)
 	wg.Wait()
 	<-done
+	// C06, load path: every load either failed (and removed its directory) or was cleaned up: TMPDIR is empty again
+	if left, err := os.ReadDir(tmp); err == nil && len(left) > 0 {
+		out.Flush()
+		fmt.Fprintf(os.Stderr, "c04gen: %d entries left in TMPDIR after all loads and clean-ups, e.g. %s\n", len(left), left[0].Name())
+		os.RemoveAll(tmp)
+		os.Exit(3)
+	}
 }
